@@ -18,8 +18,9 @@ import time
 VERIF = os.path.dirname(os.path.dirname(os.path.abspath(__file__)))
 REPO = os.environ.get("VERIF_REPO", "/repo")
 COQ = os.path.join(VERIF, "coq")
-OUT = os.environ.get("VERIF_OUTDIR") or os.path.join(VERIF, "out")  # VERIF_OUTDIR/VERIF_EVIDENCE_DIR: side runs (seeded changes) that must not disturb out/ and evidence/
-EVIDENCE = os.environ.get("VERIF_EVIDENCE_DIR") or os.path.join(VERIF, "evidence")
+_alt = REPO != "/repo" and not os.environ.get("VERIF_OUTDIR")  # a run against another checkout never shares out/ and evidence/ with runs on /repo
+OUT = os.environ.get("VERIF_OUTDIR") or (os.path.join(VERIF, "out", "alt-" + os.path.basename(REPO.rstrip("/"))) if _alt else os.path.join(VERIF, "out"))  # VERIF_OUTDIR/VERIF_EVIDENCE_DIR: side runs (seeded changes) that must not disturb out/ and evidence/
+EVIDENCE = os.environ.get("VERIF_EVIDENCE_DIR") or (os.path.join(OUT, "evidence") if _alt else os.path.join(VERIF, "evidence"))
 HARNESS = os.path.join(VERIF, "harness")
 MODULE = "github.com/dadrus/heimdall"
 
